@@ -84,8 +84,20 @@ def grOrderOk (m : Msa) : Prop :=
   ∀ t, t < m.gr.length → ∀ t', t' < t → ∀ i, i < m.nseq → (grVal m (3 + t) i).isSome = true →
     ∃ i', i' < i + 1 ∧ (grVal m (3 + t') i').isSome = true
 
-/-- the `#=GS` annotation seen as `#=GR`-like arrays of kinds 0 (`AC`: `sqacc`), 1 (`DE`: `sqdesc`), `3 + t` (unparsed tag `t`) -/
-def gsMsa (m : Msa) : Msa := { names := m.names, ss := m.sqacc, sa := m.sqdesc, gr := m.gs }
+/-- the token `printf("%.2f")` prints for the weight of sequence `i` -/
+def wtTok (m : Msa) (i : Nat) : Bytes := fmtF2 ((m.wgt.getD i Wgt.unset).toBits)
+
+/-- the weights as an optional array of printed tokens: present iff `eslMSA_HASWGTS`, then one for every sequence -/
+def wtRowsM (m : Msa) : OptRows := if m.hasw then some ((List.range m.nseq).map (fun i => some (wtTok m i))) else none
+
+/-- the printed weight is one token that `esl_mem_IsReal` accepts, survives on a line, and is not read back by `strtod` as
+    -1.0, the reader's "weight not set" marker -/
+def wgtTokOk (t : Bytes) : Prop :=
+  nameOk t ∧ memIsReal t = true ∧ (10 : UInt8) ∉ t ∧ t.getLast? ≠ some 13 ∧ strtodIsMinusOne t = false
+
+/-- the `#=GS` annotation seen as `#=GR`-like arrays of kinds 0 (`WT`: the weights), 1 (`AC`: `sqacc`), 2 (`DE`: `sqdesc`),
+    `3 + t` (unparsed tag `t`) -/
+def gsMsa (m : Msa) : Msa := { names := m.names, ss := wtRowsM m, sa := m.sqacc, pp := m.sqdesc, gr := m.gs }
 
 /-- an unparsed `#=GS` tag: a token, and none of the three tags the reader parses -/
 def gsTagOk (t : Bytes) : Prop := nameOk t ∧ (10 : UInt8) ∉ t ∧ t ≠ bWT ∧ t ≠ bAC ∧ t ≠ bDE
@@ -147,14 +159,14 @@ theorem cutsetOf_eq (m : Msa) :
     An optional array that is present has one entry per sequence and at least one of them set (an all-absent array is not
     written, hence not read back) -/
 structure StoAnn (m : Msa) : Prop where
-  hasw : m.hasw = false
   gs_tag_ok : ∀ t ∈ m.gs, gsTagOk t.1 ∧ t.2.length = m.nseq
   gs_nodup : (m.gs.map (·.1)).Nodup
   gs_ne : ∀ t, t < m.gs.length → ∃ i, i < m.nseq ∧ (grVal (gsMsa m) (3 + t) i).isSome = true
   gs_per_ok : ∀ q, q < 3 → ∀ l, (perF (gsMsa m)).getD q none = some l →
     l.length = m.nseq ∧ ∃ i, i < m.nseq ∧ (l.getD i none).isSome = true
   gs_order : gsOrderOk m
-  gs_val : ∀ q i s, grVal (gsMsa m) q i = some s → (q = 0 → gfTokOk s) ∧ (q ≠ 0 → gfTextOk s) ∧ (3 ≤ q → s ≠ [])
+  gs_val : ∀ q i s, grVal (gsMsa m) q i = some s →
+    (q = 0 → wgtTokOk s) ∧ (q = 1 → gfTokOk s) ∧ (2 ≤ q → gfTextOk s) ∧ (3 ≤ q → s ≠ [])
   per_ok : ∀ q, q < 3 → ∀ l, (perF m).getD q none = some l → l.length = m.nseq ∧ ∃ i, i < m.nseq ∧ (l.getD i none).isSome = true
   gr_tag_ok : ∀ t ∈ m.gr, grTagOk t.1 ∧ t.2.length = m.nseq
   gr_nodup : (m.gr.map (·.1)).Nodup
@@ -186,12 +198,11 @@ theorem grVal_plain {m : Msa} (h1 : m.ss = none) (h2 : m.sa = none) (h3 : m.pp =
   · rfl
 
 theorem StoPlain.ann {m : Msa} (h : StoPlain m) : StoAnn m :=
-  { hasw := h.hasw
-    gs_tag_ok := fun t ht => by rw [h.gs] at ht; cases ht
+  { gs_tag_ok := fun t ht => by rw [h.gs] at ht; cases ht
     gs_nodup := by rw [h.gs]; exact List.nodup_nil
     gs_ne := fun t ht => by rw [h.gs] at ht; simp at ht
     gs_per_ok := fun q hq l hl => by
-      unfold perF gsMsa at hl; simp only [h.sqacc, h.sqdesc] at hl
+      unfold perF gsMsa wtRowsM at hl; simp only [h.sqacc, h.sqdesc, h.hasw, Bool.false_eq_true, if_false] at hl
       rcases q with _ | _ | _ | _
       · cases hl
       · cases hl
@@ -199,8 +210,8 @@ theorem StoPlain.ann {m : Msa} (h : StoPlain m) : StoAnn m :=
       · omega
     gs_order := fun q _ _ hex => by
       obtain ⟨i, _, hv⟩ := hex
-      rw [grVal_plain (m := gsMsa m) h.sqacc h.sqdesc rfl h.gs] at hv; cases hv
-    gs_val := fun q i s hs => by rw [grVal_plain (m := gsMsa m) h.sqacc h.sqdesc rfl h.gs] at hs; cases hs
+      rw [grVal_plain (m := gsMsa m) (by show wtRowsM m = none; unfold wtRowsM; rw [h.hasw]; rfl) h.sqacc h.sqdesc h.gs] at hv; cases hv
+    gs_val := fun q i s hs => by rw [grVal_plain (m := gsMsa m) (by show wtRowsM m = none; unfold wtRowsM; rw [h.hasw]; rfl) h.sqacc h.sqdesc h.gs] at hs; cases hs
     per_ok := fun q hq l hl => by
       unfold perF at hl; rw [h.ss, h.sa, h.pp] at hl
       rcases q with _ | _ | _ | _
@@ -282,7 +293,8 @@ def stoAnnBlock (abc : Option Abc) (m : Msa) (cpl pos : Nat) : List Bytes :=
     ++ (gcSlotLines m pos (stoW m cpl pos) 3 ++ (gcSlotLines m pos (stoW m cpl pos) 4 ++ gcOtherLines m pos (stoW m cpl pos)))))))
 
 /-- the tag of `#=GS` kind `q` (0 = `AC`, 1 = `DE`) -/
-def gsTagOf (m : Msa) (q : Nat) : Bytes := if q = 0 then bAC else if q < 3 then bDE else (m.gs.getD (q - 3) ([], [])).1
+def gsTagOf (m : Msa) (q : Nat) : Bytes :=
+  if q = 0 then bWT else if q = 1 then bAC else if q < 3 then bDE else (m.gs.getD (q - 3) ([], [])).1
 
 /-- one `#=GS <seqname> AC|DE <value>` line -/
 def gsLine (m : Msa) (q i : Nat) (v : Bytes) : Bytes :=
@@ -293,8 +305,9 @@ def stoGsSec (m : Msa) (q : Nat) : List Bytes := (List.range m.nseq).flatMap (fu
 
 /-- the `#=GS` section: the accessions, then the descriptions, then the unparsed tags, each kind followed by a blank line -/
 def stoGsL (m : Msa) : List Bytes :=
-  (if m.sqacc.isSome then stoGsSec m 0 ++ [[]] else []) ++ ((if m.sqdesc.isSome then stoGsSec m 1 ++ [[]] else [])
-    ++ (List.range m.gs.length).flatMap (fun t => stoGsSec m (3 + t) ++ [[]]))
+  (if m.hasw then stoGsSec m 0 ++ [[]] else []) ++ ((if m.sqacc.isSome then stoGsSec m 1 ++ [[]] else [])
+    ++ ((if m.sqdesc.isSome then stoGsSec m 2 ++ [[]] else [])
+    ++ (List.range m.gs.length).flatMap (fun t => stoGsSec m (3 + t) ++ [[]])))
 
 /-- a value without line feed is printed on one line -/
 theorem strtokLF_acc (v acc : Bytes) (h : (10 : UInt8) ∉ v) :
@@ -325,10 +338,18 @@ theorem sto_flatMap_congr {α β : Type} (l : List α) (f g : α → List β) (h
     rw [h a (by simp), ih (fun b hb => h b (by simp [hb]))]
 
 theorem gsTagOf_other (m : Msa) (t : Nat) : gsTagOf m (3 + t) = (m.gs.getD t ([], [])).1 := by
-  unfold gsTagOf; rw [if_neg (by omega), if_neg (by omega), Nat.add_sub_cancel_left]
+  unfold gsTagOf; rw [if_neg (by omega), if_neg (by omega), if_neg (by omega), Nat.add_sub_cancel_left]
 
-theorem gsVal_acc' (m : Msa) (i : Nat) : grVal (gsMsa m) 0 i = optRow m.sqacc i := rfl
-theorem gsVal_desc' (m : Msa) (i : Nat) : grVal (gsMsa m) 1 i = optRow m.sqdesc i := rfl
+theorem gsVal_acc' (m : Msa) (i : Nat) : grVal (gsMsa m) 1 i = optRow m.sqacc i := rfl
+theorem gsVal_desc' (m : Msa) (i : Nat) : grVal (gsMsa m) 2 i = optRow m.sqdesc i := rfl
+theorem gsVal_wt' (m : Msa) (i : Nat) : grVal (gsMsa m) 0 i = optRow (wtRowsM m) i := rfl
+
+theorem gsVal_wt (m : Msa) (hw : m.hasw = true) (i : Nat) (hi : i < m.nseq) : grVal (gsMsa m) 0 i = some (wtTok m i) := by
+  rw [gsVal_wt']; unfold wtRowsM optRow
+  simp [hw, List.getD_eq_getElem?_getD, hi]
+
+theorem gsVal_wt_none (m : Msa) (hw : m.hasw = false) (i : Nat) : grVal (gsMsa m) 0 i = none := by
+  rw [gsVal_wt']; unfold wtRowsM; rw [hw]; rfl
 
 theorem flatMap_single {α β : Type} (f : α → β) (l : List α) : l.flatMap (fun x => [f x]) = l.map f := by
   induction l with
@@ -385,48 +406,60 @@ theorem stoBody_ann (pfam : Bool) (abc : Option Abc) (m : Msa) (hp : StoAnn m) (
   have k1 : str " AC " = [32] ++ bAC ++ [32] := by decide +kernel
   have k2 : str " DE " = [32] ++ bDE ++ [32] := by decide +kernel
   have hgs : stoGSLines (stoLayout m) m = stoGsL m := by
+    have k0 : str " WT " = [32] ++ bWT ++ [32] := by decide +kernel
     unfold stoGSLines stoGsL stoGsSec
-    simp only [hp.hasw, Bool.false_eq_true, if_false, List.nil_append, List.append_assoc]
+    simp only [List.append_assoc]
     congr 1
-    · cases hacc : m.sqacc with
-      | none => rfl
-      | some la =>
-        simp only [Option.isSome_some, if_true]
+    · cases hw : m.hasw with
+      | false => rfl
+      | true =>
+        simp only [if_true]
         congr 1
+        rw [← flatMap_single]
         apply sto_flatMap_congr
-        intro i _
-        have e : grVal (gsMsa m) 0 i = optRow (some la) i := by rw [gsVal_acc', hacc]
-        rw [e]
-        cases optRow (some la) i with
-        | none => rfl
-        | some v => simp [optLine, gsLine, stoName, hu, k1, gsTagOf]
+        intro i hi
+        rw [gsVal_wt m hw i (List.mem_range.mp hi)]
+        simp [optLine, gsLine, stoName, hu, k0, gsTagOf, wtTok]
     · congr 1
-      · cases hdesc : m.sqdesc with
+      · cases hacc : m.sqacc with
         | none => rfl
-        | some ld =>
+        | some la =>
           simp only [Option.isSome_some, if_true]
           congr 1
           apply sto_flatMap_congr
           intro i _
-          have e : grVal (gsMsa m) 1 i = optRow (some ld) i := by rw [gsVal_desc', hdesc]
+          have e : grVal (gsMsa m) 1 i = optRow (some la) i := by rw [gsVal_acc', hacc]
           rw [e]
-          cases optRow (some ld) i with
+          cases optRow (some la) i with
           | none => rfl
-          | some v => simp [optLine, gsLine, stoName, hu, k2, gsTagOf]
-      · apply sto_flatMap_congr
-        intro t _
-        congr 1
-        apply sto_flatMap_congr
-        intro j _
-        have e : grVal (gsMsa m) (3 + t) j = (m.gs.getD t ([], [])).2.getD j none := grVal_other (gsMsa m) t j
-        rw [e]
-        cases hv : (m.gs.getD t ([], [])).2.getD j none with
-        | none => rfl
-        | some v =>
-          have hval := hp.gs_val (3 + t) j v (by rw [e]; exact hv)
-          have h10 : (10 : UInt8) ∉ v := (hval.2.1 (by omega)).2.2.1
-          simp only [strtokLF_single v h10 (hval.2.2 (by omega))]
-          simp [optLine, gsLine, stoName, hu, padRight, gsTagOf_other]
+          | some v => simp [optLine, gsLine, stoName, hu, k1, gsTagOf]
+      · congr 1
+        · cases hdesc : m.sqdesc with
+          | none => rfl
+          | some ld =>
+            simp only [Option.isSome_some, if_true]
+            congr 1
+            apply sto_flatMap_congr
+            intro i _
+            have e : grVal (gsMsa m) 2 i = optRow (some ld) i := by rw [gsVal_desc', hdesc]
+            rw [e]
+            cases optRow (some ld) i with
+            | none => rfl
+            | some v => simp [optLine, gsLine, stoName, hu, k2, gsTagOf]
+        · apply sto_flatMap_congr
+          intro t _
+          congr 1
+          apply sto_flatMap_congr
+          intro j _
+          have e : grVal (gsMsa m) (3 + t) j = (m.gs.getD t ([], [])).2.getD j none := grVal_other (gsMsa m) t j
+          rw [e]
+          cases hv : (m.gs.getD t ([], [])).2.getD j none with
+          | none => rfl
+          | some v =>
+            have hval := hp.gs_val (3 + t) j v (by rw [e]; exact hv)
+            have h10 : (10 : UInt8) ∉ v := (hval.2.2.1 (by omega)).2.2.1
+            simp only [strtokLF_single v h10 (hval.2.2.2 (by omega))]
+            simp [optLine, gsLine, stoName, hu, padRight, gsTagOf_other]
   unfold stockholmBodyLines
   simp only [hhead, hgs, hblk]
 
@@ -531,12 +564,41 @@ def gsW (m : Msa) : Nat := 1 + (gsVals m).foldl (fun a s => a + s.length) 0
 def dnGs (m : Msa) (G : GsSt) (i' q' : Nat) : Bool :=
   decide (i' < m.nseq) && (decide (q' < G.sec) || (decide (q' = G.sec) && decide (i' < G.i)))
 
+/-- the weight array seen as an optional array of tokens: -1.0 (unset) is "no entry" -/
+def wgtRows (m : Msa) (hasw : Bool) (wgt : List Wgt) : OptRows :=
+  if hasw then some ((List.range wgt.length).map (fun i => if wgt.getD i Wgt.unset == Wgt.unset then none else some (wtTok m i)))
+  else none
+
 /-- the `#=GS` part of the reader's state: the values read so far sit in `sqacc`, `sqdesc`, `gs` (the length arrays of
     `GrInv` have no counterpart here: any will do) -/
-structure GsInv (m : Msa) (G : GsSt) (n : Nat) (hasw : Bool) (sqacc sqdesc : OptRows) (gsTags : List Bytes)
+structure GsInv (m : Msa) (G : GsSt) (n : Nat) (hasw : Bool) (wgt : List Wgt) (sqacc sqdesc : OptRows) (gsTags : List Bytes)
     (gs : List (List (Option Bytes))) : Prop where
-  hasw : hasw = false
-  inv : ∃ PL L, GrInv (gsMsa m) 0 (gsW m) (dnGs m G) n [sqacc, sqdesc, none] PL gsTags gs L
+  w0 : hasw = false → wgt = List.replicate n Wgt.unset
+  wl : wgt.length = n
+  wv : ∀ i, i < n → wgt[i]? = some Wgt.unset ∨ wgt[i]? = some (Wgt.val 0)
+  inv : ∃ PL L, GrInv (gsMsa m) 0 (gsW m) (dnGs m G) n [wgtRows m hasw wgt, sqacc, sqdesc] PL gsTags gs L
+
+theorem wgtRows_pad (m : Msa) (hasw : Bool) (wgt : List Wgt) (k : Nat) :
+    wgtRows m hasw (wgt ++ List.replicate k Wgt.unset) = (wgtRows m hasw wgt).map (· ++ List.replicate k none) := by
+  unfold wgtRows
+  cases hasw with
+  | false => rfl
+  | true =>
+    simp only [if_true, Option.map_some]
+    congr 1
+    apply List.ext_getElem?
+    intro i
+    by_cases hi : i < wgt.length
+    · rw [List.getElem?_append_left (by simpa using hi)]
+      simp only [List.getElem?_map, List.getElem?_range (show i < (wgt ++ List.replicate k Wgt.unset).length by simp; omega),
+        List.getElem?_range hi, Option.map_some, List.getD_eq_getElem?_getD, List.getElem?_append_left hi]
+    · by_cases hi2 : i < wgt.length + k
+      · rw [List.getElem?_append_right (by simp; omega)]
+        simp only [List.length_map, List.length_range, List.getElem?_map,
+          List.getElem?_range (show i < (wgt ++ List.replicate k Wgt.unset).length by simp; omega), Option.map_some,
+          List.getD_eq_getElem?_getD, List.getElem?_append_right (Nat.le_of_not_lt hi), List.getElem?_replicate]
+        simp [show i - wgt.length < k by omega]
+      · rw [List.getElem?_eq_none (by simp; omega), List.getElem?_eq_none (by simp; omega)]
 
 /-- the annotation part of the reader's state -/
 structure Ann where
@@ -729,7 +791,7 @@ def cntSet (m : Msa) (g : Nat) : Nat := ((((consF m).zip consLT).take g).filterM
     recorded, `j` sequence lines and `k` lines in all of this block have been read, `g` `#=GC` slots are done -/
 structure InBlkQ (cfg : Cfg) (enc : UInt8 → UInt8) (txt : Nat → Bytes) (m : Msa) (G : GsSt) (pos w jn jb j q k g : Nat) (st : StoSt) : Prop where
   fr : Frozen m G pos w g (annOf st)
-  gsI : GsInv m G st.sqalloc st.hasw st.sqacc st.sqdesc st.gsTags st.gs
+  gsI : GsInv m G st.sqalloc st.hasw st.wgt st.sqacc st.sqdesc st.gsTags st.gs
   grI : GrInv m pos w (dnOf j q) st.sqalloc st.per st.perLen st.grTags st.gr st.ogrLen
   alen : st.alen = pos
   nblock : st.nblock = 0 ↔ pos = 0
@@ -873,7 +935,19 @@ theorem getSeqIdx_new (cfg : Cfg) (enc : UInt8 → UInt8) (txt : Nat → Bytes) 
             gcI := hfr.gcI }
         gsI := by
           obtain ⟨PL, L, hI⟩ := h.gsI.inv
-          refine ⟨h.gsI.hasw, PL.map (Option.map (· ++ List.replicate st.sqalloc 0)), L.map (· ++ List.replicate st.sqalloc 0), ?_⟩
+          refine ⟨fun e => by
+              show st.wgt ++ List.replicate st.sqalloc Wgt.unset = List.replicate (2 * st.sqalloc) Wgt.unset
+              rw [h.gsI.w0 e, Nat.two_mul]; simp,
+            by show (st.wgt ++ List.replicate st.sqalloc Wgt.unset).length = 2 * st.sqalloc
+               rw [List.length_append, h.gsI.wl]; simp; omega,
+            fun i hi => by
+              show (st.wgt ++ List.replicate st.sqalloc Wgt.unset)[i]? = _ ∨ (st.wgt ++ List.replicate st.sqalloc Wgt.unset)[i]? = _
+              by_cases e : i < st.sqalloc
+              · rw [List.getElem?_append_left (by rw [h.gsI.wl]; exact e)]; exact h.gsI.wv i e
+              · have hi' : i < 2 * st.sqalloc := hi
+                rw [List.getElem?_append_right (by rw [h.gsI.wl]; omega), List.getElem?_replicate, if_pos (by rw [h.gsI.wl]; omega)]
+                exact Or.inl rfl,
+            PL.map (Option.map (· ++ List.replicate st.sqalloc 0)), L.map (· ++ List.replicate st.sqalloc 0), ?_⟩
           have hc : ∀ i' q', (grVal (gsMsa m) q' i').isSome = true → (dnGs m G i' q' && decide (i' < jn)) = dnGs m G i' q' := by
             intro i' q' hv
             cases hd : dnGs m G i' q' with
@@ -882,7 +956,7 @@ theorem getSeqIdx_new (cfg : Cfg) (enc : UInt8 → UInt8) (txt : Nat → Bytes) 
           have h1 := (hI.congr (dn' := fun i' q' => dnGs m G i' q' && decide (i' < jn)) hc).expand st.sqalloc
             (fun i' q' hi => by simp; intro _; omega)
           have h2 := h1.congr (dn' := dnGs m G) (fun i' q' hv => (hc i' q' hv).symm)
-          simp only [pdExpandSeq, msaExpand, Nat.two_mul]
+          simp only [pdExpandSeq, msaExpand, Nat.two_mul, wgtRows_pad]
           exact h2
         grI := by
           have hk : st.sqalloc + st.sqalloc - st.salloc = st.sqalloc := by rw [h.salloc]; omega
@@ -2990,7 +3064,10 @@ theorem InBlk_init (cfg : Cfg) (enc : UInt8 → UInt8) (txt : Nat → Bytes) (m 
         gf := rfl
         gcI := { tags := by simp [ngcOf]; rfl, gc_len := by simp [ngcOf]; rfl, lens_len := by simp [ngcOf]; rfl
                  le := by simp [ngcOf], gc := fun k hk => by simp [ngcOf] at hk, lens := fun k hk => by simp [ngcOf] at hk } }
-    gsI := ⟨rfl, List.replicate 3 none, [], GrInv.init (gsMsa m) (gsW m) 16 (dnGs m GsSt.none)
+    gsI := ⟨fun _ => rfl, by show (List.replicate 16 Wgt.unset).length = 16; simp,
+      fun i hi => Or.inl (by show (List.replicate 16 Wgt.unset)[i]? = _; rw [List.getElem?_replicate, if_pos (show i < 16 from hi)]),
+      List.replicate 3 none, [],
+      GrInv.init (gsMsa m) (gsW m) 16 (dnGs m GsSt.none)
       (fun i q => by simp [dnGs, GsSt.none]) (gsVal_vnone m hp)⟩
     grI := GrInv.init m w 16 (dnOf 0 (nslots m)) (fun i q => dnOf_false_of_ge 0 (nslots m) i q (Nat.zero_le _)) (grVal_vnone m hp)
     alen := rfl, nblock := ⟨fun _ => rfl, fun _ => rfl⟩, names := by simp [headSt], nseq := rfl
@@ -3035,12 +3112,12 @@ theorem gsline_shape (m : Msa) (q i : Nat) (v : Bytes) :
   unfold gsLine padRight
   rw [sGS_eq]; simp
 
-theorem gsTag_facts (m : Msa) (hp : StoAnn m) (q : Nat) (hq : q < 3 + m.gs.length) (hq2 : q ≠ 2) :
+theorem gsTag_facts (m : Msa) (hp : StoAnn m) (q : Nat) (hq : q < 3 + m.gs.length) :
     nameOk (gsTagOf m q) ∧ (10 : UInt8) ∉ gsTagOf m q := by
   rcases q with _ | _ | _ | q
-  · rw [show gsTagOf m 0 = bAC from rfl]; unfold nameOk; decide +kernel
-  · rw [show gsTagOf m (0 + 1) = bDE from rfl]; unfold nameOk; decide +kernel
-  · omega
+  · rw [show gsTagOf m 0 = bWT from rfl]; unfold nameOk; decide +kernel
+  · rw [show gsTagOf m (0 + 1) = bAC from rfl]; unfold nameOk; decide +kernel
+  · rw [show gsTagOf m (0 + 1 + 1) = bDE from rfl]; unfold nameOk; decide +kernel
   · have e : q + 1 + 1 + 1 = 3 + q := by omega
     rw [e, gsTagOf_other]
     have ht : q < m.gs.length := by omega
@@ -3128,15 +3205,53 @@ theorem InBlkQ.gsCongr {cfg : Cfg} {enc : UInt8 → UInt8} {txt : Nat → Bytes}
     InBlkQ cfg enc txt m G' pos w jn jb j q k g st :=
   { h with
     fr := { h.fr with lead := h.fr.lead }
-    gsI := ⟨h.gsI.hasw, by obtain ⟨PL, L, hI⟩ := h.gsI.inv; exact ⟨PL, L, hI.congr hd⟩⟩ }
+    gsI := ⟨h.gsI.w0, h.gsI.wl, h.gsI.wv, by obtain ⟨PL, L, hI⟩ := h.gsI.inv; exact ⟨PL, L, hI.congr hd⟩⟩ }
 
 theorem gs_getD_fst (m : Msa) (t : Nat) : (m.gs.getD t ([], [])).1 = (m.gs.map (·.1)).getD t [] := by
   simp only [List.getD_eq_getElem?_getD, List.getElem?_map]
   cases m.gs[t]? <;> rfl
 
+/-- `#=GS <seqname> WT <weight>` for a sequence that has no weight yet -/
+theorem gsApply_wt (st : StoSt) (i : Nat) (v : Bytes) (hv : wgtTokOk v) (hc : st.wgt[i]? = some Wgt.unset) :
+    gsApply st i bWT v = .ok { st with wgt := st.wgt.set i (Wgt.val 0), hasw := true } := by
+  have hm := memtok_name v hv.1
+  have hi := lt_length_of_getElem? hc
+  have hw : wgtOfTok v = Wgt.val 0 := by unfold wgtOfTok; rw [hv.2.2.2.2]; rfl
+  unfold gsApply
+  simp [show memstrcmp bWT bWT = true from by decide, hm, getE_of hc, hv.2.1, setE, hi, hw]
+
+/-- the weight array after a `WT` line, seen as an array of tokens -/
+theorem wgtRows_set (m : Msa) (hasw : Bool) (wgt : List Wgt) (n i : Nat) (hl : wgt.length = n) (hi : i < n)
+    (arr : List (Option Bytes))
+    (harr : (hasw = false ∧ wgt = List.replicate n Wgt.unset ∧ arr = List.replicate n none) ∨ wgtRows m hasw wgt = some arr) :
+    wgtRows m true (wgt.set i (Wgt.val 0)) = some (arr.set i (some (wtTok m i))) := by
+  have harr' : arr = (List.range n).map (fun j => if wgt.getD j Wgt.unset == Wgt.unset then none else some (wtTok m j)) := by
+    rcases harr with ⟨_, h2, h3⟩ | h
+    · rw [h3, h2]
+      apply List.ext_getElem?
+      intro j
+      by_cases hj : j < n
+      · simp [List.getElem?_replicate, hj, List.getD_eq_getElem?_getD]
+      · simp [List.getElem?_replicate, hj]
+    · unfold wgtRows at h
+      cases hasw with
+      | false => simp at h
+      | true => simp only [if_true, Option.some.injEq] at h; rw [← h, hl]
+  unfold wgtRows
+  simp only [if_true, List.length_set, hl, Option.some.injEq]
+  rw [harr']
+  apply List.ext_getElem?
+  intro j
+  by_cases hj : j < n
+  · by_cases e : i = j
+    · subst e
+      simp [hj, List.getD_eq_getElem?_getD, List.getElem?_set, hl]
+    · simp [hj, List.getD_eq_getElem?_getD, List.getElem?_set, e]
+  · simp [hj, List.getElem?_set]
+
 /-- one `#=GS` line -/
 theorem gsLine_step (abc : Option Abc) (cfg : Cfg) (enc : UInt8 → UInt8) (txt : Nat → Bytes) (m : Msa)
-    (W : StoWritable abc cfg enc txt m) (w q i jn : Nat) (st : StoSt) (hq : q < 3 + m.gs.length) (hq2 : q ≠ 2) (hi : i < m.nseq) (v : Bytes)
+    (W : StoWritable abc cfg enc txt m) (w q i jn : Nat) (st : StoSt) (hq : q < 3 + m.gs.length) (hi : i < m.nseq) (v : Bytes)
     (hv : grVal (gsMsa m) q i = some v) (h : InBlk cfg enc txt m ⟨q, i⟩ 0 w jn 0 0 0 0 st)
     (hjn : (jn = i ∧ ∀ q' i', q' < q → grVal (gsMsa m) q' i' = none) ∨ (i < jn ∧ jn = m.nseq)) :
     ∃ st', stoStep cfg st (gsLine m q i v) = .inl st' ∧
@@ -3170,14 +3285,16 @@ theorem gsLine_step (abc : Option Abc) (cfg : Cfg) (enc : UInt8 → UInt8) (txt 
     have hl : st1.names.length = jnA jn (i + 1) := by
       rw [h1.names, List.length_take]; have : jnA jn (i + 1) ≤ m.names.length := hjAm; omega
     omega
-  obtain ⟨hw0, PL, L, hI⟩ := h1.gsI
+  obtain ⟨hw0, hwl, hwv, PL, L, hI⟩ := h1.gsI
   have hval := W.ann.gs_val q i v hv
   obtain ⟨sp, hline, hsp⟩ := gsline_shape m q i v
-  obtain ⟨htn, _⟩ := gsTag_facts m W.ann q hq hq2
+  obtain ⟨htn, _⟩ := gsTag_facts m W.ann q hq
   have hvh : ∀ c, v.head? = some c → inDelim blankTab c = false := by
     by_cases e : q = 0
     · exact nameOk_head v (hval.1 e).1
-    · exact (hval.2.1 e).1
+    · by_cases e1 : q = 1
+      · exact nameOk_head v (hval.2.1 e1).1
+      · exact (hval.2.2.1 (by omega)).1
   have hm1 : memtok (bGS ++ [32] ++ (m.names.getD i [] ++ sp ++ (gsTagOf m q ++ [32] ++ v))) blankTab
       = some (bGS, m.names.getD i [] ++ sp ++ (gsTagOf m q ++ [32] ++ v)) :=
     memtok_tok bGS [32] _ (by unfold nameOk; decide +kernel) ⟨by simp, by simp⟩ (head_tok _ sp _ (W.name_ok i hi).1)
@@ -3193,37 +3310,79 @@ theorem gsLine_step (abc : Option Abc) (cfg : Cfg) (enc : UInt8 → UInt8) (txt 
     fun hh => hh.congr (fun i' q' _ => dnGs_step m q i i' q' hi)
   by_cases hq3 : q < 3
   · rcases q with _ | _ | _ | t
-    · -- AC
-      have hgt : gsTagOf m 0 = bAC := rfl
+    · -- WT
+      have hgt : gsTagOf m 0 = bWT := rfl
+      have hmw : m.hasw = true := by
+        cases hh : m.hasw with
+        | true => rfl
+        | false => rw [gsVal_wt_none m hh] at hv; cases hv
+      have hvt : v = wtTok m i := by
+        have := gsVal_wt m hmw i hi; rw [hv] at this; exact Option.some.inj this
       have hperarr := hI.perArr 0 (by omega) i hi (by rw [hv]; rfl)
-      obtain ⟨arr, lens, harr, hr⟩ : ∃ arr lens, ((st1.sqacc = none ∧ arr = List.replicate st1.sqalloc none) ∨ st1.sqacc = some arr) ∧
+      obtain ⟨arr, lens, harr, hr⟩ : ∃ arr lens,
+          ((st1.hasw = false ∧ st1.wgt = List.replicate st1.sqalloc Wgt.unset ∧ arr = List.replicate st1.sqalloc none) ∨
+            wgtRows m st1.hasw st1.wgt = some arr) ∧
           RowSpec (gsMsa m) 0 (gsW m) (dnGs m ⟨0, i⟩) st1.sqalloc 0 arr lens := by
         rcases hperarr with ⟨hp, hr⟩ | ⟨arr, lens, hp, _, hr⟩
-        · exact ⟨_, _, Or.inl ⟨by simpa using hp, rfl⟩, hr⟩
+        · have hp' : wgtRows m st1.hasw st1.wgt = none := by simpa using hp
+          have hf : st1.hasw = false := by
+            cases hh : st1.hasw with
+            | false => rfl
+            | true => rw [hh] at hp'; simp [wgtRows] at hp'
+          exact ⟨_, _, Or.inl ⟨hf, hw0 hf, rfl⟩, hr⟩
         · exact ⟨arr, lens, Or.inr (by simpa using hp), hr⟩
       have hc := hr.arr i hsq
       rw [hcellv] at hc
-      have happ := gsApply_ac st1 i v (hval.1 rfl) arr harr hr.alen hsq hc
+      have hwu : st1.wgt[i]? = some Wgt.unset := by
+        rcases harr with ⟨_, h2, _⟩ | h2
+        · rw [h2, List.getElem?_replicate, if_pos hsq]
+        · rcases hwv i hsq with e | e
+          · exact e
+          · exfalso
+            unfold wgtRows at h2
+            cases hh : st1.hasw with
+            | false => rw [hh] at h2; simp at h2
+            | true =>
+              rw [hh] at h2
+              simp only [if_true, Option.some.injEq] at h2
+              rw [← h2, List.getElem?_map, List.getElem?_range (by rw [hwl]; exact hsq)] at hc
+              simp only [Option.map_some, List.getD_eq_getElem?_getD, e, Option.getD_some,
+                show (Wgt.val 0 == Wgt.unset) = false from by decide, Bool.false_eq_true, if_false] at hc
+              cases hc
+      have happ := gsApply_wt st1 i v (hval.1 rfl) hwu
       have hp := parseGs_eval st st1 _ _ _ _ _ _ v i hm1 hm2 (by rw [hgt] at hm3; exact hm3) hidx happ
       refine ⟨_, by rw [hline, stoStep_gsline cfg st _ h.fr.lead, hp]; rfl, ?_⟩
       have hset := hstep (hI.setPer 0 (by omega) i hi hsq v hv arr lens hr)
-      rw [htv] at hset
+      rw [htv, hvt] at hset
+      have hrows := wgtRows_set m st1.hasw st1.wgt st1.sqalloc i hwl hsq arr harr
+      have hn0 : true = false → st1.wgt.set i (Wgt.val 0) = List.replicate st1.sqalloc Wgt.unset := fun e => by cases e
+      have hn1 : (st1.wgt.set i (Wgt.val 0)).length = st1.sqalloc := by rw [List.length_set]; exact hwl
+      have hn2 : ∀ j, j < st1.sqalloc → (st1.wgt.set i (Wgt.val 0))[j]? = some Wgt.unset ∨
+          (st1.wgt.set i (Wgt.val 0))[j]? = some (Wgt.val 0) := by
+        intro j hj
+        rw [List.getElem?_set]
+        by_cases e : i = j
+        · subst e; simp [hwl, hsq]
+        · simp only [e, if_false]; exact hwv j hj
+      have hn3 : GrInv (gsMsa m) 0 (gsW m) (dnGs m ⟨0, i + 1⟩) st1.sqalloc
+          [wgtRows m true (st1.wgt.set i (Wgt.val 0)), st1.sqacc, st1.sqdesc] (PL.set 0 (some (lens.set i (0 + gsW m)))) st1.gsTags st1.gs L := by
+        rw [hrows]; exact hset
       exact
         { h1 with
           fr := { h1.fr with lead := h1.fr.lead }
-          gsI := ⟨hw0, _, L, hset⟩
+          gsI := ⟨hn0, hn1, hn2, _, L, hn3⟩
           si := Or.inr ⟨rfl, rfl, by show i + 1 ≤ st1.nseq; rw [h1.nseq, h1.names, List.length_take]; have : jnA jn (i + 1) ≤ m.names.length := hjAm; omega⟩ }
-    · -- DE
-      have hgt : gsTagOf m 1 = bDE := rfl
+    · -- AC
+      have hgt : gsTagOf m 1 = bAC := rfl
       have hperarr := hI.perArr 1 (by omega) i hi (by rw [hv]; rfl)
-      obtain ⟨arr, lens, harr, hr⟩ : ∃ arr lens, ((st1.sqdesc = none ∧ arr = List.replicate st1.sqalloc none) ∨ st1.sqdesc = some arr) ∧
+      obtain ⟨arr, lens, harr, hr⟩ : ∃ arr lens, ((st1.sqacc = none ∧ arr = List.replicate st1.sqalloc none) ∨ st1.sqacc = some arr) ∧
           RowSpec (gsMsa m) 0 (gsW m) (dnGs m ⟨1, i⟩) st1.sqalloc 1 arr lens := by
         rcases hperarr with ⟨hp, hr⟩ | ⟨arr, lens, hp, _, hr⟩
         · exact ⟨_, _, Or.inl ⟨by simpa using hp, rfl⟩, hr⟩
         · exact ⟨arr, lens, Or.inr (by simpa using hp), hr⟩
       have hc := hr.arr i hsq
       rw [hcellv] at hc
-      have happ := gsApply_de st1 i v (hval.2.1 (by omega)) arr harr hr.alen hsq hc
+      have happ := gsApply_ac st1 i v (hval.2.1 rfl) arr harr hr.alen hsq hc
       have hp := parseGs_eval st st1 _ _ _ _ _ _ v i hm1 hm2 (by rw [hgt] at hm3; exact hm3) hidx happ
       refine ⟨_, by rw [hline, stoStep_gsline cfg st _ h.fr.lead, hp]; rfl, ?_⟩
       have hset := hstep (hI.setPer 1 (by omega) i hi hsq v hv arr lens hr)
@@ -3231,9 +3390,28 @@ theorem gsLine_step (abc : Option Abc) (cfg : Cfg) (enc : UInt8 → UInt8) (txt 
       exact
         { h1 with
           fr := { h1.fr with lead := h1.fr.lead }
-          gsI := ⟨hw0, _, L, hset⟩
+          gsI := ⟨hw0, hwl, hwv, _, L, hset⟩
           si := Or.inr ⟨rfl, rfl, by show i + 1 ≤ st1.nseq; rw [h1.nseq, h1.names, List.length_take]; have : jnA jn (i + 1) ≤ m.names.length := hjAm; omega⟩ }
-    · omega
+    · -- DE
+      have hgt : gsTagOf m 2 = bDE := rfl
+      have hperarr := hI.perArr 2 (by omega) i hi (by rw [hv]; rfl)
+      obtain ⟨arr, lens, harr, hr⟩ : ∃ arr lens, ((st1.sqdesc = none ∧ arr = List.replicate st1.sqalloc none) ∨ st1.sqdesc = some arr) ∧
+          RowSpec (gsMsa m) 0 (gsW m) (dnGs m ⟨2, i⟩) st1.sqalloc 2 arr lens := by
+        rcases hperarr with ⟨hp, hr⟩ | ⟨arr, lens, hp, _, hr⟩
+        · exact ⟨_, _, Or.inl ⟨by simpa using hp, rfl⟩, hr⟩
+        · exact ⟨arr, lens, Or.inr (by simpa using hp), hr⟩
+      have hc := hr.arr i hsq
+      rw [hcellv] at hc
+      have happ := gsApply_de st1 i v (hval.2.2.1 (by omega)) arr harr hr.alen hsq hc
+      have hp := parseGs_eval st st1 _ _ _ _ _ _ v i hm1 hm2 (by rw [hgt] at hm3; exact hm3) hidx happ
+      refine ⟨_, by rw [hline, stoStep_gsline cfg st _ h.fr.lead, hp]; rfl, ?_⟩
+      have hset := hstep (hI.setPer 2 (by omega) i hi hsq v hv arr lens hr)
+      rw [htv] at hset
+      exact
+        { h1 with
+          fr := { h1.fr with lead := h1.fr.lead }
+          gsI := ⟨hw0, hwl, hwv, _, L, hset⟩
+          si := Or.inr ⟨rfl, rfl, by show i + 1 ≤ st1.nseq; rw [h1.nseq, h1.names, List.length_take]; have : jnA jn (i + 1) ≤ m.names.length := hjAm; omega⟩ }
     · omega
   · -- unparsed tag `t`
     obtain ⟨t, rfl⟩ : ∃ t, q = 3 + t := ⟨q - 3, by omega⟩
@@ -3241,7 +3419,7 @@ theorem gsLine_step (abc : Option Abc) (cfg : Cfg) (enc : UInt8 → UInt8) (txt 
     have hmem : m.gs.getD t ([], []) ∈ m.gs := by rw [getD_eq_getElem_of_lt _ ht]; exact List.getElem_mem ht
     have htok := (W.ann.gs_tag_ok _ hmem).1
     have hgt : gsTagOf m (3 + t) = (m.gs.getD t ([], [])).1 := gsTagOf_other m t
-    have hv0 : cstr v = v := cstr_id v (fun c hc e => (hval.2.1 (by omega)).2.1 (e ▸ hc))
+    have hv0 : cstr v = v := cstr_id v (fun c hc e => (hval.2.2.1 (by omega)).2.1 (e ▸ hc))
     have hct : cstr (m.gs.getD t ([], [])).1 = (m.gs.getD t ([], [])).1 := cstr_id _ (nameOk_nonul _ htok.1)
     obtain ⟨ng, hT⟩ := hI.tagI
     have hgsgr : (gsMsa m).gr = m.gs := rfl
@@ -3262,7 +3440,7 @@ theorem gsLine_step (abc : Option Abc) (cfg : Cfg) (enc : UInt8 → UInt8) (txt 
       exact
         { h1 with
           fr := { h1.fr with lead := h1.fr.lead }
-          gsI := ⟨hw0, PL, _, hset⟩
+          gsI := ⟨hw0, hwl, hwv, PL, _, hset⟩
           si := Or.inr ⟨rfl, rfl, by show i + 1 ≤ st1.nseq; rw [h1.nseq, h1.names, List.length_take]; have : jnA jn (i + 1) ≤ m.names.length := hjAm; omega⟩ }
     · have hprev : ∀ t', t' < t → t' < ng := by
         intro t' ht'
@@ -3304,12 +3482,12 @@ theorem gsLine_step (abc : Option Abc) (cfg : Cfg) (enc : UInt8 → UInt8) (txt 
       exact
         { h1 with
           fr := { h1.fr with lead := h1.fr.lead }
-          gsI := ⟨hw0, PL, _, by rw [set_snoc _ _ _ _ hT.gr_len.symm]; exact hset⟩
+          gsI := ⟨hw0, hwl, hwv, PL, _, by rw [set_snoc _ _ _ _ hT.gr_len.symm]; exact hset⟩
           si := Or.inr ⟨rfl, rfl, by show i + 1 ≤ st1.nseq; rw [h1.nseq, h1.names, List.length_take]; have : jnA jn (i + 1) ≤ m.names.length := hjAm; omega⟩ }
 
 /-- the lines of one `#=GS` kind -/
 theorem gsSec_steps (abc : Option Abc) (cfg : Cfg) (enc : UInt8 → UInt8) (txt : Nat → Bytes) (m : Msa)
-    (W : StoWritable abc cfg enc txt m) (w q jn0 : Nat) (st : StoSt) (hq : q < 3 + m.gs.length) (hq2 : q ≠ 2)
+    (W : StoWritable abc cfg enc txt m) (w q jn0 : Nat) (st : StoSt) (hq : q < 3 + m.gs.length)
     (hmode : (jn0 = 0 ∧ (∀ q' i', q' < q → grVal (gsMsa m) q' i' = none) ∧ ∀ i, i < m.nseq → (grVal (gsMsa m) q i).isSome = true) ∨
       jn0 = m.nseq)
     (h : InBlk cfg enc txt m ⟨q, 0⟩ 0 w jn0 0 0 0 0 st) :
@@ -3342,7 +3520,7 @@ theorem gsSec_steps (abc : Option Abc) (cfg : Cfg) (enc : UInt8 → UInt8) (txt 
             · exact upd_ne_q _ e2
           · exact upd_ne_i _ e)
     | some v =>
-      obtain ⟨st2, hs2, h2⟩ := gsLine_step abc cfg enc txt m W w q i (jnA jn0 i) st1 hq hq2 (by omega) v hv h1 (by
+      obtain ⟨st2, hs2, h2⟩ := gsLine_step abc cfg enc txt m W w q i (jnA jn0 i) st1 hq (by omega) v hv h1 (by
         rcases hmode with ⟨e, hno, _⟩ | e
         · subst e; exact Or.inl ⟨by unfold jnA; split <;> omega, hno⟩
         · subst e; exact Or.inr ⟨by unfold jnA; rw [if_pos (by omega)]; omega, by unfold jnA; rw [if_pos (by omega)]⟩)
@@ -3356,12 +3534,12 @@ theorem endBlock_idle (st : StoSt) (h : st.inBlock = false) : endBlock st = .ok 
 
 /-- one complete `#=GS` kind with the blank line behind it -/
 theorem gsSec_full (abc : Option Abc) (cfg : Cfg) (enc : UInt8 → UInt8) (txt : Nat → Bytes) (m : Msa)
-    (W : StoWritable abc cfg enc txt m) (w q jn0 : Nat) (st : StoSt) (hq : q < 3 + m.gs.length) (hq2 : q ≠ 2)
+    (W : StoWritable abc cfg enc txt m) (w q jn0 : Nat) (st : StoSt) (hq : q < 3 + m.gs.length)
     (hmode : (jn0 = 0 ∧ (∀ q' i', q' < q → grVal (gsMsa m) q' i' = none) ∧ ∀ i, i < m.nseq → (grVal (gsMsa m) q i).isSome = true) ∨
       jn0 = m.nseq)
     (h : InBlk cfg enc txt m ⟨q, 0⟩ 0 w jn0 0 0 0 0 st) :
     ∃ st', stepsFrom (stoStep cfg) st (stoGsSec m q ++ [[]]) = .inl st' ∧ InBlk cfg enc txt m ⟨q + 1, 0⟩ 0 w m.nseq 0 0 0 0 st' := by
-  obtain ⟨st1, hs1, h1⟩ := gsSec_steps abc cfg enc txt m W w q jn0 st hq hq2 hmode h m.nseq (Nat.le_refl _)
+  obtain ⟨st1, hs1, h1⟩ := gsSec_steps abc cfg enc txt m W w q jn0 st hq hmode h m.nseq (Nat.le_refl _)
   have hA : jnA jn0 m.nseq = m.nseq := by
     unfold jnA; rcases hmode with ⟨e, _⟩ | e <;> subst e <;> split <;> omega
   rw [hA] at h1
@@ -3371,73 +3549,65 @@ theorem gsSec_full (abc : Option Abc) (cfg : Cfg) (enc : UInt8 → UInt8) (txt :
   rw [stepsFrom_append _ _ _ _ _ hs1]
   simp only [stepsFrom, stoStep_blank cfg st1 st1 h1.fr.lead (endBlock_idle st1 hib)]
 
-theorem gsVal_kind (m : Msa) (i : Nat) : grVal (gsMsa m) 2 i = none := rfl
+theorem gsVal_arr (m : Msa) (q i : Nat) (hq : q < 3) : grVal (gsMsa m) q i = optRow ((perF (gsMsa m)).getD q none) i := by
+  unfold grVal; rw [if_pos hq]
 
-theorem gsVal_acc (m : Msa) (i : Nat) : grVal (gsMsa m) 0 i = optRow m.sqacc i := rfl
-theorem gsVal_desc (m : Msa) (i : Nat) : grVal (gsMsa m) 1 i = optRow m.sqdesc i := rfl
+/-- one of the kinds `WT`, `AC`, `DE`: written iff its array exists -/
+theorem gsKind_step (abc : Option Abc) (cfg : Cfg) (enc : UInt8 → UInt8) (txt : Nat → Bytes) (m : Msa)
+    (W : StoWritable abc cfg enc txt m) (w q jn0 : Nat) (st : StoSt) (hq : q < 3)
+    (h : InBlk cfg enc txt m ⟨q, 0⟩ 0 w jn0 0 0 0 0 st)
+    (hj : jn0 = m.nseq ∨ (jn0 = 0 ∧ ∀ q' i', q' < q → grVal (gsMsa m) q' i' = none)) :
+    ∃ st' jn', stepsFrom (stoStep cfg) st (if ((perF (gsMsa m)).getD q none).isSome then stoGsSec m q ++ [[]] else []) = .inl st' ∧
+      InBlk cfg enc txt m ⟨q + 1, 0⟩ 0 w jn' 0 0 0 0 st' ∧
+      (jn' = m.nseq ∨ (jn' = 0 ∧ ∀ q' i', q' < q + 1 → grVal (gsMsa m) q' i' = none)) := by
+  cases ha : (perF (gsMsa m)).getD q none with
+  | none =>
+    have hno : ∀ i, grVal (gsMsa m) q i = none := fun i => by rw [gsVal_arr m q i hq, ha]; rfl
+    refine ⟨st, jn0, rfl, h.gsCongr ⟨q + 1, 0⟩ (fun i' q' hv => by
+      have : q' ≠ q := fun e => by subst e; rw [hno] at hv; cases hv
+      unfold dnGs; rw [Bool.eq_iff_iff]; simp; omega), ?_⟩
+    rcases hj with e | ⟨e, hprev⟩
+    · exact Or.inl e
+    · refine Or.inr ⟨e, fun q' i' hq' => ?_⟩
+      by_cases e2 : q' = q
+      · subst e2; exact hno i'
+      · exact hprev q' i' (by omega)
+  | some l =>
+    obtain ⟨_, i0, hi0, hs0⟩ := W.ann.gs_per_ok q hq l ha
+    have hex : ∃ i, i < m.nseq ∧ (grVal (gsMsa m) q i).isSome = true := ⟨i0, hi0, by rw [gsVal_arr m q i0 hq, ha]; exact hs0⟩
+    have hmode : (jn0 = 0 ∧ (∀ q' i', q' < q → grVal (gsMsa m) q' i' = none) ∧
+        ∀ i, i < m.nseq → (grVal (gsMsa m) q i).isSome = true) ∨ jn0 = m.nseq := by
+      rcases hj with e | ⟨e, hno⟩
+      · exact Or.inr e
+      · exact Or.inl ⟨e, hno, W.ann.gs_order q (by omega) (fun q' hq' i' _ => hno q' i' hq') hex⟩
+    obtain ⟨st2, hs2, h2⟩ := gsSec_full abc cfg enc txt m W w q jn0 st (by omega) hmode h
+    exact ⟨st2, m.nseq, by simpa using hs2, h2, Or.inl rfl⟩
 
-/-- the `#=GS … AC` and `#=GS … DE` kinds -/
+theorem wtRowsM_isSome (m : Msa) : (wtRowsM m).isSome = m.hasw := by
+  unfold wtRowsM; cases m.hasw <;> rfl
+
+/-- the `#=GS … WT`, `#=GS … AC` and `#=GS … DE` kinds -/
 theorem gs_steps_acde (abc : Option Abc) (cfg : Cfg) (enc : UInt8 → UInt8) (txt : Nat → Bytes) (m : Msa)
     (W : StoWritable abc cfg enc txt m) (w : Nat) :
     ∃ st' jn0, stepsFrom (stoStep cfg) (headSt m)
-        ((if m.sqacc.isSome then stoGsSec m 0 ++ [[]] else []) ++ (if m.sqdesc.isSome then stoGsSec m 1 ++ [[]] else [])) = .inl st' ∧
+        ((if m.hasw then stoGsSec m 0 ++ [[]] else []) ++ ((if m.sqacc.isSome then stoGsSec m 1 ++ [[]] else [])
+          ++ (if m.sqdesc.isSome then stoGsSec m 2 ++ [[]] else []))) = .inl st' ∧
       InBlk cfg enc txt m ⟨3, 0⟩ 0 w jn0 0 0 0 0 st' ∧
       (jn0 = m.nseq ∨ (jn0 = 0 ∧ ∀ q i, q < 3 → grVal (gsMsa m) q i = none)) := by
-  have hp := W.ann
-  have h0 := InBlk_init cfg enc txt m hp w
-  have hany : ∀ q l, q < 2 → (perF (gsMsa m)).getD q none = some l → ∃ i, i < m.nseq ∧ (grVal (gsMsa m) q i).isSome = true := by
-    intro q l hq hl
-    obtain ⟨_, i, hi, hs⟩ := hp.gs_per_ok q (by omega) l hl
-    refine ⟨i, hi, ?_⟩
-    unfold grVal; rw [if_pos (by omega), hl]; exact hs
-  have hlast : ∀ {st : StoSt} {jn : Nat}, InBlk cfg enc txt m ⟨2, 0⟩ 0 w jn 0 0 0 0 st → InBlk cfg enc txt m ⟨3, 0⟩ 0 w jn 0 0 0 0 st :=
-    fun hh => hh.gsCongr ⟨3, 0⟩ (fun i' q' hv => by
-      have : q' ≠ 2 := fun e => by subst e; rw [gsVal_kind] at hv; cases hv
-      unfold dnGs; rw [Bool.eq_iff_iff]; simp; omega)
-  cases hacc : m.sqacc with
-  | none =>
-    have hno0 : ∀ i, grVal (gsMsa m) 0 i = none := fun i => by rw [gsVal_acc, hacc]; rfl
-    have h1 : InBlk cfg enc txt m ⟨1, 0⟩ 0 w 0 0 0 0 0 (headSt m) :=
-      h0.gsCongr ⟨1, 0⟩ (fun i' q' hv => by
-        have : q' ≠ 0 := fun e => by subst e; rw [hno0] at hv; cases hv
-        unfold dnGs GsSt.none; rw [Bool.eq_iff_iff]; simp; omega)
-    cases hdesc : m.sqdesc with
-    | none =>
-      have hno1 : ∀ i, grVal (gsMsa m) 1 i = none := fun i => by rw [gsVal_desc, hdesc]; rfl
-      refine ⟨headSt m, 0, rfl, hlast (h1.gsCongr ⟨2, 0⟩ (fun i' q' hv => by
-        have : q' ≠ 1 := fun e => by subst e; rw [hno1] at hv; cases hv
-        unfold dnGs; rw [Bool.eq_iff_iff]; simp; omega)), Or.inr ⟨rfl, fun q i hq => ?_⟩⟩
-      rcases q with _ | _ | _ | q
-      · exact hno0 i
-      · exact hno1 i
-      · exact gsVal_kind m i
-      · omega
-    | some ld =>
-      have hall : ∀ i, i < m.nseq → (grVal (gsMsa m) 1 i).isSome = true :=
-        hp.gs_order 1 (by omega) (fun q' hq' i' _ => by have e : q' = 0 := (by omega); subst e; exact hno0 i')
-          (hany 1 ld (by omega) (by show m.sqdesc = some ld; exact hdesc))
-      obtain ⟨st2, hs2, h2⟩ := gsSec_full abc cfg enc txt m W w 1 0 (headSt m) (by omega) (by omega)
-        (Or.inl ⟨rfl, fun q' i' hq' => by have e : q' = 0 := (by omega); subst e; exact hno0 i', hall⟩) h1
-      refine ⟨st2, m.nseq, ?_, hlast h2, Or.inl rfl⟩
-      simpa using hs2
-  | some la =>
-    have hall : ∀ i, i < m.nseq → (grVal (gsMsa m) 0 i).isSome = true :=
-      hp.gs_order 0 (by omega) (fun q' hq' => by omega) (hany 0 la (by omega) (by show m.sqacc = some la; exact hacc))
-    obtain ⟨st1, hs1, h1⟩ := gsSec_full abc cfg enc txt m W w 0 0 (headSt m) (by omega) (by omega)
-      (Or.inl ⟨rfl, fun q' i' hq' => by omega, hall⟩) h0
-    cases hdesc : m.sqdesc with
-    | none =>
-      have hno1 : ∀ i, grVal (gsMsa m) 1 i = none := fun i => by rw [gsVal_desc, hdesc]; rfl
-      refine ⟨st1, m.nseq, ?_, hlast (h1.gsCongr ⟨2, 0⟩ (fun i' q' hv => by
-        have : q' ≠ 1 := fun e => by subst e; rw [hno1] at hv; cases hv
-        unfold dnGs; rw [Bool.eq_iff_iff]; simp; omega)), Or.inl rfl⟩
-      simpa using hs1
-    | some ld =>
-      obtain ⟨st2, hs2, h2⟩ := gsSec_full abc cfg enc txt m W w 1 m.nseq st1 (by omega) (by omega) (Or.inr rfl) h1
-      refine ⟨st2, m.nseq, ?_, hlast h2, Or.inl rfl⟩
-      simp only [Option.isSome_some, if_true]
-      rw [stepsFrom_append _ _ _ _ _ hs1]
-      exact hs2
+  have h0 := InBlk_init cfg enc txt m W.ann w
+  obtain ⟨s1, j1, e1, h1, m1⟩ := gsKind_step abc cfg enc txt m W w 0 0 (headSt m) (by omega) h0 (Or.inr ⟨rfl, fun q' i' hq' => by omega⟩)
+  obtain ⟨s2, j2, e2, h2, m2⟩ := gsKind_step abc cfg enc txt m W w 1 j1 s1 (by omega) h1 m1
+  obtain ⟨s3, j3, e3, h3, m3⟩ := gsKind_step abc cfg enc txt m W w 2 j2 s2 (by omega) h2 m2
+  refine ⟨s3, j3, ?_, h3, ?_⟩
+  · have a0 : ((perF (gsMsa m)).getD 0 none).isSome = m.hasw := wtRowsM_isSome m
+    rw [a0] at e1
+    have e2' : stepsFrom (stoStep cfg) s1 (if m.sqacc.isSome then stoGsSec m 1 ++ [[]] else []) = .inl s2 := e2
+    have e3' : stepsFrom (stoStep cfg) s2 (if m.sqdesc.isSome then stoGsSec m 2 ++ [[]] else []) = .inl s3 := e3
+    rw [stepsFrom_append _ _ _ _ _ e1, stepsFrom_append _ _ _ _ _ e2']
+    exact e3'
+  · rcases m3 with e | ⟨e, hno⟩
+    · exact Or.inl e
+    · exact Or.inr ⟨e, fun q i hq => hno q i hq⟩
 
 /-- the unparsed `#=GS` tags, one kind after the other -/
 theorem gs_steps_tags (abc : Option Abc) (cfg : Cfg) (enc : UInt8 → UInt8) (txt : Nat → Bytes) (m : Msa)
@@ -3457,7 +3627,7 @@ theorem gs_steps_tags (abc : Option Abc) (cfg : Cfg) (enc : UInt8 → UInt8) (tx
       rcases hj1 with e | ⟨e, hno⟩
       · exact Or.inr e
       · exact Or.inl ⟨e, hno, W.ann.gs_order (3 + t) (by omega) (fun q' hq' i' _ => hno q' i' hq') (W.ann.gs_ne t (by omega))⟩
-    obtain ⟨st2, hs2, h2⟩ := gsSec_full abc cfg enc txt m W w (3 + t) jn1 st1 (by omega) (by omega) hmode h1
+    obtain ⟨st2, hs2, h2⟩ := gsSec_full abc cfg enc txt m W w (3 + t) jn1 st1 (by omega) hmode h1
     refine ⟨st2, m.nseq, ?_, h2, Or.inl rfl⟩
     rw [List.range_succ, List.flatMap_append, stepsFrom_append _ _ _ _ _ hs1]
     simpa using hs2
@@ -3471,7 +3641,8 @@ theorem gs_steps (abc : Option Abc) (cfg : Cfg) (enc : UInt8 → UInt8) (txt : N
   obtain ⟨st2, jn2, hs2, h2, hj2⟩ := gs_steps_tags abc cfg enc txt m W w st1 jn1 h1 hj1 m.gs.length (Nat.le_refl _)
   refine ⟨st2, jn2, ?_, h2, ?_⟩
   · unfold stoGsL
-    rw [← List.append_assoc, stepsFrom_append _ _ _ _ _ hs1]
+    rw [← List.append_assoc, ← List.append_assoc, List.append_assoc (if m.hasw = true then _ else _),
+      stepsFrom_append _ _ _ _ _ hs1]
     exact hs2
   · rcases hj2 with e | ⟨e, hno⟩
     · exact Or.inl e
@@ -3484,13 +3655,14 @@ theorem gs_steps (abc : Option Abc) (cfg : Cfg) (enc : UInt8 → UInt8) (txt : N
 
 /-! ## the end of the record -/
 
-/-- everything Stockholm/Pfam represent of `m`: all of it; rows in the reader's mode, default weights; of the cut-offs the
-    reader MODEL keeps which ones are set (a second threshold only with the first), not their value (`some 0`) -/
+/-- everything Stockholm/Pfam represent of `m`: all of it; rows in the reader's mode; of the weights the reader MODEL keeps
+    whether they are set, not their value (`Wgt.val 0` for every sequence with `eslMSA_HASWGTS`, else the default weights); of
+    the cut-offs the reader MODEL keeps which ones are set (a second threshold only with the first), not their value (`some 0`) -/
 def stoProject (cfg : Cfg) (m : Msa) : Msa :=
   { m with digital := cfg.digital, kp := cfg.kp,
            aseq := if cfg.digital then [] else (List.range m.nseq).map m.stored,
            ax := if cfg.digital then (List.range m.nseq).map m.stored else [],
-           wgt := List.replicate m.nseq Wgt.dflt,
+           wgt := if m.hasw then List.replicate m.nseq (Wgt.val 0) else List.replicate m.nseq Wgt.dflt,
            cutoff := if (cutsetOf m).any id then (cutsetOf m).map (fun b => if b then some 0 else none) else [] }
 
 theorem rows_take_final (rows : List (Option Bytes)) (n : Nat) (f : Nat → Bytes)
@@ -3554,7 +3726,8 @@ theorem stoFinal_full (abc : Option Abc) (cfg : Cfg) (enc : UInt8 → UInt8) (tx
   have c2 := hcons 2 (by omega)
   have c3 := hcons 3 (by omega)
   have c4 := hcons 4 (by omega)
-  have e_hasw : st.hasw = false := h.gsI.hasw
+  have hwl := h.gsI.wl
+  have hwv := h.gsI.wv
   have e_name : st.name = m.name := hfr.name
   have e_desc : st.desc = m.desc := hfr.desc
   have e_acc : st.acc = m.acc := hfr.acc
@@ -3573,10 +3746,35 @@ theorem stoFinal_full (abc : Option Abc) (cfg : Cfg) (enc : UInt8 → UInt8) (tx
       rw [dnGs_full m i q hi (by rw [hv]; rfl)]
       show txtVal s (0 + gsW m) = some s
       exact txtVal_gs m q i s hi hv
-  have e_sqacc : st.sqacc.map (·.take m.nseq) = m.sqacc :=
+  have e_wt : (wgtRows m st.hasw st.wgt).map (·.take m.nseq) = wtRowsM m :=
     hGs.final_per hnsq0 hgvis hgcell 0 (by omega) (hp.gs_per_ok 0 (by omega))
-  have e_sqdesc : st.sqdesc.map (·.take m.nseq) = m.sqdesc :=
+  have e_sqacc : st.sqacc.map (·.take m.nseq) = m.sqacc :=
     hGs.final_per hnsq0 hgvis hgcell 1 (by omega) (hp.gs_per_ok 1 (by omega))
+  have e_sqdesc : st.sqdesc.map (·.take m.nseq) = m.sqdesc :=
+    hGs.final_per hnsq0 hgvis hgcell 2 (by omega) (hp.gs_per_ok 2 (by omega))
+  have e_hasw : st.hasw = m.hasw := by
+    have := congrArg Option.isSome e_wt
+    rw [wtRowsM_isSome, Option.isSome_map] at this
+    rw [← this]; unfold wgtRows; cases st.hasw <;> rfl
+  have e_wgt : m.hasw = true → st.wgt.take m.nseq = List.replicate m.nseq (Wgt.val 0) := by
+    intro hm
+    have hh : st.hasw = true := by rw [e_hasw, hm]
+    apply List.ext_getElem?
+    intro i
+    by_cases hi : i < m.nseq
+    · rw [List.getElem?_take, if_pos hi, List.getElem?_replicate, if_pos hi]
+      rcases hwv i (by omega) with e | e
+      · exfalso
+        rw [hh] at e_wt
+        unfold wgtRows wtRowsM at e_wt
+        simp only [if_true, hm, Option.map_some, Option.some.injEq] at e_wt
+        have h1 := congrArg (fun l => l[i]?) e_wt
+        simp only [List.getElem?_take, hi, if_true, List.getElem?_map, List.getElem?_range hi,
+          List.getElem?_range (show i < st.wgt.length by rw [hwl]; omega), Option.map_some, List.getD_eq_getElem?_getD, e,
+          Option.getD_some, beq_self_eq_true] at h1
+        cases h1
+      · exact e
+    · rw [List.getElem?_take, if_neg hi, List.getElem?_replicate, if_neg hi]
   have e_gs : st.gsTags.zip (st.gs.map (·.take m.nseq)) = m.gs :=
     hGs.final_gr hnsq0 hgvis hgcell (fun t ht => (hp.gs_tag_ok t ht).2) hp.gs_ne
   have hG : GrInv m m.alen w (fun _ _ => false) st.sqalloc st.per st.perLen st.grTags st.gr st.ogrLen :=
@@ -3597,18 +3795,42 @@ theorem stoFinal_full (abc : Option Abc) (cfg : Cfg) (enc : UInt8 → UInt8) (tx
     GcInv.final (hfr.gcI.congr (by simp [ngcOf, ha0]) (fun _ _ => by simp [gcCol])) ha1 (fun t ht => (hp.gc_ok t ht).2.1)
   have e_gr : st.grTags.zip (st.gr.map (·.take m.nseq)) = m.gr :=
     hG.final_gr hnsq hrvis hrcell (fun t ht => (hp.gr_tag_ok t ht).2) hp.gr_ne
-  unfold stoFinal
-  simp only [hnb, hn0, Bool.false_eq_true, if_false, hfind, e_hasw]
-  congr 1
-  unfold stoMsa stoProject
-  simp only [hnseq, hrows, hnames, h.alen, e_hasw, e_name, e_desc, e_acc, e_au, c0, c1, c2, c3, c4, e_sqacc, e_sqdesc, e_p0, e_p1, e_p2,
-    e_cut, e_com, e_gf, e_gs, e_gc, e_gr]
-  have a1 := hp.hasw
-  rcases m with ⟨digital, kp, alen, names, aseq, ax, hasw, wgt, name, desc, acc, au, ssCons, saCons, ppCons, rf, mm, sqacc, sqdesc,
-    ss, sa, pp, cutoff, comments, gf, gs, gc, gr⟩
-  simp only at a1
-  subst a1
-  simp [Msa.nseq, consF]
+  cases hm : m.hasw with
+  | false =>
+    have e_hasw' : st.hasw = false := by rw [e_hasw, hm]
+    unfold stoFinal
+    simp only [hnb, hn0, Bool.false_eq_true, if_false, hfind, e_hasw']
+    congr 1
+    unfold stoMsa stoProject
+    simp only [hnseq, hrows, hnames, h.alen, e_hasw', hm, e_name, e_desc, e_acc, e_au, c0, c1, c2, c3, c4, e_sqacc, e_sqdesc, e_p0, e_p1,
+      e_p2, e_cut, e_com, e_gf, e_gs, e_gc, e_gr]
+    rcases m with ⟨digital, kp, alen, names, aseq, ax, hasw, wgt, name, desc, acc, au, ssCons, saCons, ppCons, rf, mm, sqacc, sqdesc,
+      ss, sa, pp, cutoff, comments, gf, gs, gc, gr⟩
+    simp only at hm
+    subst hm
+    simp [Msa.nseq, consF]
+  | true =>
+    have e_hasw' : st.hasw = true := by rw [e_hasw, hm]
+    have e_w := e_wgt hm
+    have hfind2 : (List.range st.nseq).find? (fun i => st.wgt[i]? == none || st.wgt[i]? == some Wgt.unset) = none := by
+      rw [List.find?_eq_none]
+      intro i hi
+      rw [hnseq] at hi
+      have hi' := List.mem_range.mp hi
+      have h1 := congrArg (fun l => l[i]?) e_w
+      simp only [List.getElem?_take, hi', if_true, List.getElem?_replicate] at h1
+      rw [h1]; decide
+    unfold stoFinal
+    simp only [hnb, hn0, Bool.false_eq_true, if_false, hfind, e_hasw', if_true, hfind2]
+    congr 1
+    unfold stoMsa stoProject
+    simp only [hnseq, hrows, hnames, h.alen, e_hasw', hm, if_true, e_w, e_name, e_desc, e_acc, e_au, c0, c1, c2, c3, c4, e_sqacc, e_sqdesc,
+      e_p0, e_p1, e_p2, e_cut, e_com, e_gf, e_gs, e_gc, e_gr]
+    rcases m with ⟨digital, kp, alen, names, aseq, ax, hasw, wgt, name, desc, acc, au, ssCons, saCons, ppCons, rf, mm, sqacc, sqdesc,
+      ss, sa, pp, cutoff, comments, gf, gs, gc, gr⟩
+    simp only at hm
+    subst hm
+    simp [Msa.nseq, consF]
 
 /-! ## the round trip -/
 
@@ -3735,8 +3957,8 @@ theorem stoLines_ok (pfam : Bool) (abc : Option Abc) (cfg : Cfg) (enc : UInt8 
       rotate_left
       · -- #=GS lines
         unfold stoGsL at hl
-        have hsec : ∀ q, q < 3 + m.gs.length → q ≠ 2 → ∀ l ∈ stoGsSec m q ++ [[]], lineOk l := by
-          intro q hq hq2 l hl
+        have hsec : ∀ q, q < 3 + m.gs.length → ∀ l ∈ stoGsSec m q ++ [[]], lineOk l := by
+          intro q hq l hl
           rcases List.mem_append.mp hl with hl | hl
           · unfold stoGsSec at hl
             obtain ⟨i, hi, hl⟩ := List.mem_flatMap.mp hl
@@ -3748,12 +3970,14 @@ theorem stoLines_ok (pfam : Bool) (abc : Option Abc) (cfg : Cfg) (enc : UInt8 
               simp only [optLine, List.mem_singleton] at hl
               subst hl
               obtain ⟨sp, hline, hsp⟩ := gsline_shape m q i v
-              obtain ⟨_, ht10⟩ := gsTag_facts m hp q hq hq2
+              obtain ⟨_, ht10⟩ := gsTag_facts m hp q hq
               have hval := hp.gs_val q i v hv
               have hvok : (10 : UInt8) ∉ v ∧ v.getLast? ≠ some 13 := by
                 by_cases e : q = 0
-                · exact ⟨(hval.1 e).2.1, (hval.1 e).2.2⟩
-                · exact ⟨(hval.2.1 e).2.2.1, (hval.2.1 e).2.2.2⟩
+                · exact ⟨(hval.1 e).2.2.1, (hval.1 e).2.2.2.1⟩
+                · by_cases e1 : q = 1
+                  · exact ⟨(hval.2.1 e1).2.1, (hval.2.1 e1).2.2⟩
+                  · exact ⟨(hval.2.2.1 (by omega)).2.2.1, (hval.2.2.1 (by omega)).2.2.2⟩
               rw [hline]
               have e : bGS ++ [32] ++ (m.names.getD i [] ++ sp ++ (gsTagOf m q ++ [32] ++ v))
                   = (bGS ++ [32] ++ m.names.getD i [] ++ sp ++ gsTagOf m q ++ [32]) ++ v := by simp
@@ -3771,15 +3995,19 @@ theorem stoLines_ok (pfam : Bool) (abc : Option Abc) (cfg : Cfg) (enc : UInt8 
           · simp at hl; subst hl; exact hnil
         rcases List.mem_append.mp hl with hl | hl
         · split at hl
-          · exact hsec 0 (by omega) (by omega) l hl
+          · exact hsec 0 (by omega) l hl
           · cases hl
         · rcases List.mem_append.mp hl with hl | hl
           · split at hl
-            · exact hsec 1 (by omega) (by omega) l hl
+            · exact hsec 1 (by omega) l hl
             · cases hl
-          · obtain ⟨t, ht, hl⟩ := List.mem_flatMap.mp hl
-            have ht' := List.mem_range.mp ht
-            exact hsec (3 + t) (by omega) (by omega) l hl
+          · rcases List.mem_append.mp hl with hl | hl
+            · split at hl
+              · exact hsec 2 (by omega) l hl
+              · cases hl
+            · obtain ⟨t, ht, hl⟩ := List.mem_flatMap.mp hl
+              have ht' := List.mem_range.mp ht
+              exact hsec (3 + t) (by omega) l hl
       -- header
       unfold stoAnnHead at hl
       simp only [List.mem_append, List.mem_cons, List.not_mem_nil, or_false] at hl
